@@ -1,6 +1,7 @@
 package main
 
 import (
+	"sync/atomic"
 	"bufio"
 	"bytes"
 	"errors"
@@ -216,7 +217,8 @@ func (e *Exec) runPar(c *Cmd, body []*Cmd, out *bufio.Writer) {
 	ordered := c.str("ordered", "0") == "1"
 	results := make([][]string, k)
 	var wg sync.WaitGroup
-	start := make(chan struct{}) // all goroutines leave the gate together
+	start := make(chan struct{}) // all goroutines leave the gate together ...
+	var ready int32             // ... and then spin until every one of them is actually running
 	for g := 0; g < k; g++ {
 		wg.Add(1)
 		go func(g int) {
@@ -224,6 +226,12 @@ func (e *Exec) runPar(c *Cmd, body []*Cmd, out *bufio.Writer) {
 			sl := newSlots()
 			sl.par = true
 			<-start
+			atomic.AddInt32(&ready, 1)
+			for spins := 0; atomic.LoadInt32(&ready) < int32(k); spins++ {
+				if spins%1000 == 999 {
+					runtime.Gosched()
+				}
+			}
 			for r := 0; r < rounds; r++ {
 				res := make([]string, len(body))
 				// each goroutine starts at a different offset so that different
